@@ -91,7 +91,16 @@ func main2(
 	stdin io.Reader,
 	stdout io.Writer,
 	main3 func(args []string, fs afero.Fs, logger *logrus.Logger, stdin io.Reader, stdout io.Writer) error,
-) int {
+) (exitCode int) {
+	// A command that trips over an untidy but valid model (a call to an application that does
+	// not exist, an unresolved type reference, ...) must end with a message and a non-zero
+	// status, not with a Go stack trace.
+	defer func() {
+		if r := recover(); r != nil {
+			logger.Errorf("internal error: %v", r)
+			exitCode = 1
+		}
+	}()
 	if err := main3(args, fs, logger, stdin, stdout); err != nil {
 		arraiErr, ok := errors.Cause(err).(arrai.ExecutionError)
 		var exitCode = 1
